@@ -183,11 +183,15 @@ where
         loop {
             let wait_read = async {
                 let mut buffer = self.state.take_buffer();
-                if buffer.is_empty() {
+                // a buffered part of the request head is incomplete: wait for the rest of it
+                if buffer.is_empty() || matches!(self.state, State::WaitingRequest(_)) {
                     if matches!(self.state, State::RequestInProgress(_)) {
                         let _ = self.upload_tx.reserve().await;
                     }
-                    self.transport_stream.read_buf(&mut buffer).await?;
+                    if self.transport_stream.read_buf(&mut buffer).await? == 0 {
+                        // end of stream (possibly in the middle of the head)
+                        buffer.clear();
+                    }
                 }
                 Ok(buffer)
             };
